@@ -10,12 +10,12 @@ ID = "C19"
 LEVEL = "exploration"
 RULE = (
     "the finite matrix target {module function, instance method, classmethod, staticmethod, plain attribute} x "
-    "replacement {default mock, plain function, bound method, callable object, an explicitly passed Mock, new_callable=, non-callable} x "
+    "replacement {default mock, plain function, bound method, callable object, an explicitly passed Mock, new_callable=, non-callable, classmethod(f), staticmethod(f) - the last two on class attributes only} x "
     "activation {context manager, function decorator, class decorator (goes through patcher.copy()), start/stop} x exit path {normal, exception, stop(), stopall()} x "
     "composition {single, nested on the same target with a second replacement, nested with the SAME replacement object, sequential} x entry point {patch('mod.attr'), patch.object} is "
-    "ENUMERATED COMPLETELY on a synthetic module registered in sys.modules. Inside the patch the sync call, "
+    "ENUMERATED COMPLETELY on a synthetic module registered in sys.modules. Class attributes are reached through the owner, a subclass and the owner again (methods: an instance of each) during the same patch. Inside the patch the sync call, "
     ".asynq().value(), yielding .asynq() from a task and asyncio.run(.asyncio()) must all reach the replacement with the "
-    "same recorded arguments (ending with the given ones) and return the same result; a non-callable replacement must be "
+    "same recorded arguments (ending with the given ones; exactly the given ones for non-descriptor replacements and staticmethod(f), the class reached through + the given ones for classmethod(f)) and return the same result; a non-callable replacement must be "
     "installed as is; after every exit path the owner's __dict__ entry IS the original object. "
     "distinct = cell; non-trivial = every cell with a callable replacement (4 conventions compared)."
 )
@@ -23,7 +23,7 @@ ASSUMPTIONS = ["unittest.mock itself is trusted"]
 UNIT_TIMEOUT = {"quick": 200, "thorough": 600}
 
 TARGETS = ["fn", "meth", "cmeth", "smeth", "const"]
-REPLS = ["default", "function", "bound", "callable_obj", "explicit_mock", "new_callable", "noncallable"]
+REPLS = ["default", "function", "bound", "callable_obj", "explicit_mock", "new_callable", "noncallable", "classmethod_fn", "staticmethod_fn"]
 ACTS = ["with", "decorator", "classdeco", "startstop"]
 EXITS = ["normal", "exception", "stopall"]
 COMPS = ["single", "nested", "nested_same_replacement", "sequential"]
@@ -56,8 +56,12 @@ def make_module():
         def smeth(x, y=0):
             return ("orig-smeth", x, y)
 
+    class Sub(Cls):
+        pass
+
     mod.fn = fn
     mod.Cls = Cls
+    mod.Sub = Sub
     sys.modules["c19_mod"] = mod
     return mod
 
@@ -70,16 +74,21 @@ def owner_and_name(mod, target):
 
 
 def accessor(mod, target):
+    """[(label, getter, class through which the attribute is reached)]: class-level targets are reached
+    through the owner, through a subclass and through the owner again during the same patch."""
     if target == "fn":
-        return lambda: mod.fn
+        return [("module", lambda: mod.fn, None)]
     if target == "meth":
         inst = mod.Cls()
-        return lambda: inst.meth
-    if target == "cmeth":
-        return lambda: mod.Cls.cmeth
-    if target == "smeth":
-        return lambda: mod.Cls.smeth
-    return lambda: mod.Cls.CONST
+        sub = mod.Sub()
+        return [("instance", lambda: inst.meth, mod.Cls), ("subclass instance", lambda: sub.meth, mod.Sub), ("instance again", lambda: inst.meth, mod.Cls)]
+    if target in ("cmeth", "smeth"):
+        return [
+            ("owner class", lambda: getattr(mod.Cls, target), mod.Cls),
+            ("subclass", lambda: getattr(mod.Sub, target), mod.Sub),
+            ("owner class again", lambda: getattr(mod.Cls, target), mod.Cls),
+        ]
+    return [("owner class", lambda: mod.Cls.CONST, mod.Cls)]
 
 
 class Recorder(object):
@@ -122,6 +131,12 @@ def make_replacement(kind, rec):
         return {"new_callable": mock.MagicMock}, "mock"
     if kind == "noncallable":
         return {"new": 42}, None
+    if kind in ("classmethod_fn", "staticmethod_fn"):
+        def new(*args, **kwargs):
+            rec.calls.append((args, tuple(sorted(kwargs.items()))))
+            return ("replaced", len(args))
+
+        return {"new": (classmethod if kind == "classmethod_fn" else staticmethod)(new)}, None
     raise AssertionError(kind)
 
 
@@ -132,7 +147,19 @@ def outcome(fn):
         return ("exc", exc_desc(e))
 
 
-def check_inside(get, entered, rec, repl, target, viol):
+def check_inside(gets, entered, rec, repl, target, viol):
+    n = 0
+    for label, get, via in gets:
+        k = len(viol)
+        n += check_inside_one(get, entered, rec, repl, target, viol, via)
+        for v in viol[k:]:
+            v[1]["reached_through"] = label
+        if len(viol) > k:
+            break
+    return n
+
+
+def check_inside_one(get, entered, rec, repl, target, viol, via):
     """All four conventions reach the replacement and agree."""
     from asynq import asynq as A
 
@@ -177,6 +204,14 @@ def check_inside(get, entered, rec, repl, target, viol):
         args, kw = new_calls[0]
         if args[-1:] != (3,) or dict(kw) != {"y": 4}:
             viol.append(("replacement-got-wrong-arguments", {"convention": name, "recorded": repr(new_calls[0])[:120]}))
+            return len(convs)
+        want = None
+        if repl == "classmethod_fn":
+            want = (via, 3)  # a classmethod replacement is bound to the class it is reached through
+        elif repl in ("staticmethod_fn", "bound", "callable_obj"):
+            want = (3,)
+        if want is not None and args != want:
+            viol.append(("replacement-got-wrong-arguments", {"convention": name, "recorded": repr(new_calls[0])[:120], "expected_positional": repr(want)[:80]}))
             return len(convs)
     first = recorded[0][1][0]
     for name, calls in recorded[1:]:
@@ -321,6 +356,8 @@ def cells():
                     for comp in COMPS:
                         if comp == "nested_same_replacement" and r in ("default", "new_callable"):
                             continue  # those create a fresh mock per patch; nothing to share
+                        if r in ("classmethod_fn", "staticmethod_fn") and t in ("fn", "const"):
+                            continue  # descriptors are only meaningful as class attributes
                         for entry in ENTRIES:
                             out.append((t, r, a, e, comp, entry))
     return out
